@@ -92,6 +92,29 @@ def run(check, tier, seed, jobs, evid_path):
                 what, trait = k.rsplit(".", 1)
                 violations.append({"prop": "C19", "kind": f"not-{trait}", "detail": f"configuration {cfg} ({'default features' if cfg == 'A' else 'interruptible'}): the value returned by / type `{what}` is not {trait.capitalize()} for F: Send + Sync and Send user futures", "case": f"cfg={cfg}|fact={k}", "log": ""})
         samples.append({"config": cfg, "facts": facts})
+        # second probe: F is Send + Sync but NOT 'static (borrows from the caller's stack); every
+        # returned value is really moved to a scoped thread and driven / dropped there
+        okb, errb = check.cargo_build(cfg, bins=("fgv_probe_borrow",), allow_no_mt=False)
+        if okb:
+            try:
+                pb = subprocess.run([check.bin_path(cfg, "fgv_probe_borrow")], cwd=check.VERIF, env=check.ENV, stdout=subprocess.PIPE, stderr=subprocess.PIPE, text=True, timeout=240)
+                mb = re.search(r"BORROW-PROBE ok mode=other-threads config=\S+ runs=(\d+)", pb.stdout)
+                if mb:
+                    checked += int(mb.group(1))
+                    samples.append({"config": cfg, "borrowing_F_values_moved_to_other_threads": int(mb.group(1))})
+                else:
+                    inconclusive.append(f"config {cfg}: borrowing-F probe did not finish: rc={pb.returncode} {pb.stdout[-300:]} {pb.stderr[-600:]}")
+            except subprocess.TimeoutExpired:
+                inconclusive.append(f"config {cfg}: borrowing-F probe did not finish within the 240 s watchdog")
+        else:
+            # does the same code compile when nothing is moved to another thread (no Send demanded)?
+            okn, errn = check.cargo_build(cfg, bins=("fgv_probe_borrow",), features_extra=["probe_nosend"], variant="-nosend", allow_no_mt=False)
+            first = re.search(r"error(\[E\d+\])?: [^\n]*\n(?:[^\n]*\n){0,30}", errb)
+            msg = first.group(0)[:2500] if first else errb[-1500:]
+            if okn:
+                violations.append({"prop": "C19", "kind": "send-only-for-static-F", "detail": f"configuration {cfg}: with a function type that is Send + Sync but borrows from the caller (not 'static), the code that moves the returned values to another thread does not compile, while the same code run on the calling thread (no Send demanded) does:\n{msg}", "case": f"cfg={cfg}|probe=borrow", "log": ""})
+            else:
+                inconclusive.append(f"config {cfg}: borrowing-F probe compiles neither with nor without the Send requirement (not a Send question): {msg[:800]}")
         # in-family part, short native run: really move the values across threads
         for mode, iters in (("tokio", 20 if tier == "quick" else 200), ("threads", 10 if tier == "quick" else 60), ("xthread", 40 if tier == "quick" else 400)):
             try:
@@ -126,6 +149,8 @@ def run(check, tier, seed, jobs, evid_path):
         "in configuration A (default features) and B (interruptible); negative controls (Rc, the fold_async future) must read false. "
         "Part 2 (in-family): the values are moved across threads for real - runs awaited inside tokio::spawn on a multi-thread runtime over an Arc<FnGraph>, FnRefs dropped on other threads, "
         "several threads each driving runs on one &FnGraph - natively in the quick tier and under ThreadSanitizer and Miri in the thorough tier; a data race or an E0277 Send/Sync compile error of that workload is the violation. "
+        "A second probe repeats the moves with a function type that is Send + Sync but NOT 'static (it borrows a counter from the caller's stack) and StreamOpts values built elsewhere and moved in; "
+        "it is built with and without the Send requirement, so that a compile failure that only the Send requirement causes is reported as the violation. "
         "Limit: a handful of F and future types, not every F."
     )
     coverage = {
@@ -148,7 +173,7 @@ def run(check, tier, seed, jobs, evid_path):
         "coverage": coverage,
         "assumptions": [
             "rustc's trait solver (the probe reads its answer; it does not re-derive it)",
-            "F = harness TFn (plain data, Send + Sync); user futures are Send async blocks",
+            "F = harness TFn (plain data, Send + Sync) and a borrowing Bump<'a> (Send + Sync, not 'static); user futures and error types are Send but not Sync",
             "ThreadSanitizer / Miri observe only the interleavings the workload produced",
         ],
         "wall_s": round(time.time() - t0, 2),
